@@ -472,3 +472,65 @@ def _old_same_self_cycle(prog, comp):
             if r:
                 return r
     return None
+
+
+def check_guard_balance(ctx, rep):
+    """a depth counter used as a recursion guard must be restored on every path (incremented once, decremented once,
+    balanced), otherwise it degrades into a global budget: long but shallow inputs are rejected as 'too deep'"""
+    from rules import guards as G
+    from rules import panic as P
+    from vlib.dataflow import must_pass
+
+    prog = ctx.prog
+    pr = P.PanicRule(ctx)
+    fw = pr.field_writes()
+    n = 0
+    for (adt, fld), ws in sorted(fw.items()):
+        if "depth" not in fld:
+            continue
+        if not adt.startswith("haystack::"):
+            continue
+        incs, decs, other = [], [], []
+        for wb, rv, bi in ws:
+            if rv["k"] != "use":
+                other.append(wb)
+                continue
+            c = mir.op_const(rv["op"])
+            if c is not None:
+                continue
+            p2 = mir.op_place(rv["op"])
+            sd = wb.single_def(p2["l"]) if p2 is not None and len(p2["p"]) == 1 else None
+            if sd and sd[1] != "term" and sd[2]["k"] == "binop":
+                y = G.describe(wb, sd[2]["b"])
+                if y.kind == "const" and y.v == 1 and sd[2]["op"].startswith("Add"):
+                    incs.append((wb, bi))
+                    continue
+                if y.kind == "const" and y.v == 1 and sd[2]["op"].startswith("Sub"):
+                    decs.append((wb, bi))
+                    continue
+            other.append(wb)
+        n += 1
+        key = "depth-counter-balanced:%s.%s" % (adt.split("::")[-1], fld)
+        where = incs[0][0].where(incs[0][1]) if incs else "-"
+        if other:
+            rep.bad("R-REC", "R-REC:" + key, where, "depth counter %s.%s is written by something other than +1 / -1 (%s)" % (adt, fld, other[0].short))
+            continue
+        if not incs:
+            continue
+        ok = True
+        why = ""
+        for wb, ib in incs:
+            mine = [bi for (b2, bi) in decs if b2.id == wb.id]
+            if not mine:
+                ok, why = False, "%s increments it but never decrements it" % wb.short.split("::")[-1]
+                break
+            for r in [i for i, blk in enumerate(wb.blocks) if blk["term"]["k"] == "return"]:
+                good, path = must_pass(wb, [ib], r, mine)
+                if not good:
+                    ok, why = False, "%s can return between += 1 and -= 1 (blocks %s)" % (wb.short.split("::")[-1], path)
+                    break
+        if ok:
+            rep.ok("R-REC", key, where, "every increment is followed by a decrement on all paths of the same function")
+        else:
+            rep.bad("R-REC", "R-REC:" + key, where, "depth counter %s.%s is not restored: %s; it then counts groups instead of nesting depth and rejects well-formed long inputs" % (adt.split("::")[-1], fld, why))
+    return n
